@@ -48,22 +48,25 @@ func (c *channels) Connect(ctx context.Context, target peer.ID) error {
 	if _, ok := c.subs[target]; !ok {
 		c.logger.Debug("subscribing to", zap.String("topic", id))
 
-		sub, err := c.ipfs.PubSub().Subscribe(ctx, id, options.PubSub.Discover(true))
+		// the subscription is shared by every caller connecting to this peer: it lives
+		// as long as the channels themselves, not as long as the first caller's context
+		chCtx, cancel := context.WithCancel(c.ctx)
+
+		sub, err := c.ipfs.PubSub().Subscribe(chCtx, id, options.PubSub.Discover(true))
 		if err != nil {
+			cancel()
 			c.muSubs.Unlock()
 			return fmt.Errorf("unable to subscribe to pubsub: %w", err)
 		}
 
-		ctx, cancel := context.WithCancel(ctx)
-
 		c.subs[target] = &channel{
-			ctx:    ctx,
+			ctx:    chCtx,
 			cancel: cancel,
 			sub:    sub,
 			id:     id,
 		}
 		go func() {
-			c.monitorTopic(ctx, sub, target)
+			c.monitorTopic(chCtx, sub, target)
 
 			// if monitor topic is done, remove target from cache
 			c.muSubs.Lock()
